@@ -766,7 +766,7 @@ func genOptions() string {
 
 type c19PlatEntry struct {
 	constName, name, opt, documented, conv string
-	asserted                              []string
+	asserted                               []string
 }
 
 func buildPlatformEntries() []c19PlatEntry {
